@@ -176,7 +176,7 @@ theorem propTick_linv (n : Net) {st : HState} {m : LMon} (slot clock : Nat) (r1 
       have h2 := propFetch_linv n (st := ⟨store, false, fc, fn, false⟩) (n.epoch slot) r1 (h1.mono (fun x hx => hx))
       exact h2.of_store (propPost_store _ _ _)
   · simp only [propTick, if_true, lrun_append]
-    have h1 := propFetch_linv n (st := ⟨store, false, fc, fn, false⟩) (n.epoch slot) r1 (h.mono (fun x hx => hx))
+    have h1 := propFetch_linv n (st := ⟨store, r1.failed, fc, fn, false⟩) (n.epoch slot) r1 (h.mono (fun x hx => hx))
     have h2 := linv_exec .prop n slot clock h1
     exact h2.of_store (propPost_store _ _ _)
 
